@@ -277,12 +277,56 @@ fn soup_problem(text: &str, comm: &[bool; 64], st: Option<&mut Stats>) -> Option
     None
 }
 
+/// flat / deep differential through the real float instantiation on texts that Rust's float
+/// parser would read as numbers (the data type's `FromStr` must not decide what a text means in
+/// one form only)
+fn float_lookalikes(st: &mut Stats) {
+    use exmex::{DeepEx, FlatEx};
+    for text in crate::mon::c13::FLOAT_LOOKALIKES {
+        st.bump("float_lookalike_texts");
+        let r = crate::core::catch(|| -> Option<String> {
+            let f = FlatEx::<f64>::parse(text).ok()?;
+            let d = DeepEx::<f64>::parse(text).ok()?;
+            let forms: Vec<(&str, Vec<String>, Option<f64>)> = {
+                let ev = |names: &[String], v: exmex::ExResult<f64>| (names.to_vec(), v.ok());
+                let vals = |n: usize| vec![2.5; n];
+                let f2 = FlatEx::<f64>::from_deepex(d.clone()).ok()?;
+                let d2 = f.clone().to_deepex().ok()?;
+                let a = ev(f.var_names(), f.eval(&vals(f.var_names().len())));
+                let b = ev(d.var_names(), d.eval(&vals(d.var_names().len())));
+                let c = ev(f2.var_names(), f2.eval(&vals(f2.var_names().len())));
+                let e = ev(d2.var_names(), d2.eval(&vals(d2.var_names().len())));
+                vec![("flat", a.0, a.1), ("deep", b.0, b.1), ("deep->flat", c.0, c.1), ("flat->deep", e.0, e.1)]
+            };
+            for (name, vars, val) in &forms[1..] {
+                let same_val = match (val, &forms[0].2) {
+                    (Some(a), Some(b)) => a.to_bits() == b.to_bits() || (a.is_nan() && b.is_nan()),
+                    (None, None) => true,
+                    _ => false,
+                };
+                if vars != &forms[0].1 || !same_val {
+                    return Some(format!("{name}: variables {vars:?}, value {val:?}; flat: variables {:?}, value {:?}", forms[0].1, forms[0].2));
+                }
+            }
+            None
+        });
+        let p = match r {
+            Ok(p) => p,
+            Err(m) => Some(format!("panic: {m}")),
+        };
+        if let Some(p) = p {
+            st.violation(format!("float-lookalike|{text}"), text.len(), json!({"kind": "flat-deep-differential-f64", "text": text, "problem": p}));
+        }
+    }
+}
+
 pub fn run(ctx: &Ctx) -> i32 {
     let n_tree = ctx.n(120_000, 6_000_000);
     let n_soup = ctx.n(240_000, 10_000_000);
     let stats = run_workers(ctx, 3, |w, rng, st| {
         if w == 0 {
             known_catalogue(st);
+            float_lookalikes(st);
         }
         let quota = share(n_tree, w, ctx.threads);
         let mut table = gen_table(rng, &TableCfg::default());
